@@ -384,6 +384,14 @@ class StopTracer:
         self.sweeps = []
         self.pending = False
         o_conv, o_sweep, o_prep = eng.is_converged, eng.sweep, eng.prepare_update_local
+        # whether a mixer is active when the main loop of run() has terminated (before post_run_cleanup, which is not part of the model)
+        self.mixer_at_stop = None
+        o_post = eng.post_run_cleanup
+
+        def post_run_cleanup():
+            self.mixer_at_stop = eng.mixer is not None
+            return o_post()
+        eng.post_run_cleanup = post_run_cleanup
 
         def is_converged():
             r = bool(o_conv())
@@ -727,7 +735,7 @@ def _run_ext(case, out):
             out['effh'] = effh_probe(M, psi_ret, MPOEnvironment(psi_ret, M.H_MPO, psi_ret, start_env_sites=0), None)
     if stp is not None:
         out['stop'] = {'convs': stp.convs, 'sweeps': stp.sweeps, 'min_sweeps': None if min_sweeps_derived is None else int(min_sweeps_derived),
-                       'mixer_end': eng.mixer is not None}
+                       'mixer_end': (eng.mixer is not None) if stp.mixer_at_stop is None else stp.mixer_at_stop}
         chi_end = eng.trunc_params.silent_get('chi_max', None)
         out['chi_max_end'] = None if chi_end is None else int(chi_end)
     out['n_ortho'] = len(eng.ortho_to_envs)
@@ -837,7 +845,7 @@ def run_one(case):
     out['sweeps'] = int(eng.sweeps)
     out['hc'] = bool(M.H_MPO.explicit_plus_hc)
     out['stop'] = {'convs': stp.convs, 'sweeps': stp.sweeps, 'min_sweeps': None if min_sweeps_derived is None else int(min_sweeps_derived),
-                   'mixer_end': eng.mixer is not None}
+                   'mixer_end': (eng.mixer is not None) if stp.mixer_at_stop is None else stp.mixer_at_stop}
     chi_end = eng.trunc_params.silent_get('chi_max', None)
     out['chi_max_end'] = None if chi_end is None else int(chi_end)
     out['n'] = int(eng.n_optimize)
@@ -868,7 +876,7 @@ def run_one(case):
         out['q1'] = [int(x) for x in psi.get_total_charge(True)]
         ov = psi.overlap(psi)
         out['self_overlap'] = [float(np.real(ov)), float(np.imag(ov))]
-        if eng.mixer is None and all(np.ndim(s_) == 1 for s_ in psi._S):
+        if eng.mixer is None and all(np.ndim(s_) == 1 for s_ in psi._S) and not case.get('no_effh'):
             from tenpy.networks.mpo import MPOEnvironment
             out['effh'] = effh_probe(M, psi, MPOEnvironment(psi, M.H_MPO, psi), out['E_mpo'])
     else:
